@@ -40,6 +40,8 @@ REPORTED = {
                             "escaped form needs >= 2048 bytes overruns the stack (SIGSEGV / ASan stack-buffer-overflow)",
     "chrome-no-event-comma": "dump --chrome ends every metadata event with a comma: when the filters leave no function "
                              "event the traceEvents array has a trailing comma (invalid JSON)",
+    "argspec-text-overflow": "get_argspec_string wrote the argument text past the end of its buffer (replay 1 KiB, "
+                             "dump 2 KiB): print_args let the remaining length wrap, print_char never looked at it",
     "chrome-comm-escape": "dump --chrome prints task->comm raw in the process_name/thread_name events: a double "
                           "quote or backslash in the executable's file name gives invalid JSON",
 }
@@ -153,19 +155,32 @@ def gen_case(rng, pool, big=False, avoid_trunc=True):
     # a task without any record is dropped from the directory (its .dat would be empty)
     # string arguments / return values on the calls of one plainly named function
     strs = {}
+    argkinds = ""
     if argsym is not None:
+        heavy = rng.random() < 0.35                 # many / long / escape-heavy arguments: text beyond 1 KiB and 2 KiB
+        argkinds = "".join(rng.choice("sssc") for _ in range(rng.randrange(4, 11) if heavy else rng.randrange(1, 4)))
+
+        def one_string(long_ok):
+            k = rng.randrange(7)
+            if k == 0:
+                return b"\xff\xff\xff\xff"                          # the NULL marker
+            if k == 1:
+                return bytes(rng.choice(SPECIAL + [9, 10, 0x41]) for _ in range(rng.randrange(0, 12))) + b"\0"
+            if k == 2:
+                return b"mid\0dle\0"                                # bytes after the terminator are ignored
+            if long_ok and k in (3, 4):                            # long and escape-heavy
+                ch = rng.choice([b"\x01", b"\\", b'"', b"\n", b"a", b"\xff", b"\t"])
+                n = rng.choice([60, 90, 98, 120, 200, 409, 410])
+                mix = bytes(rng.choice(SPECIAL + [0x41]) for _ in range(n)) if rng.random() < 0.3 else ch * n
+                return mix.replace(b"\0", b"\x01") + b"\0"
+            return pool.one() + rng.choice([b"", b"\t", b"\n", b'"', b"\\"]) + b"\0"
         for i, r in enumerate(recs):
             if r[2] == argsym and rng.random() < 0.8:
-                k = rng.randrange(6)
-                if k == 0:
-                    v = b"\xff\xff\xff\xff"                          # the NULL marker
-                elif k == 1:
-                    v = bytes(rng.choice(SPECIAL + [9, 10, 0x41]) for _ in range(rng.randrange(0, 12))) + b"\0"
-                elif k == 2:
-                    v = b"mid\0dle\0"                                # bytes after the terminator are ignored
+                if r[1]:
+                    strs[i] = [("s", one_string(heavy)) if kd == "s" else
+                               ("c", rng.choice(SPECIAL + [0x41, 9, 10, 0, 0x27])) for kd in argkinds]
                 else:
-                    v = pool.one() + rng.choice([b"", b"\t", b"\n", b'"', b"\\"]) + b"\0"
-                strs[i] = v
+                    strs[i] = [("s", one_string(heavy))]
     used = {r[0] for r in recs}
     tasks = [t for t in tasks if t[0] in used]
     if tasks and tasks[0][0] != 100:
@@ -200,7 +215,7 @@ def gen_case(rng, pool, big=False, avoid_trunc=True):
     sample = min(sample, 999999999)
     exe = rng.choice(["prog", "prog", "a.out", "t-abc_1.2", "x"])
     return {"tasks": tasks, "syms": syms, "recs": recs, "sample": max(1, sample), "exe": exe,
-            "argsym": argsym, "strs": strs}
+            "argsym": argsym, "strs": strs, "argkinds": argkinds}
 
 
 # ---------------------------------------------------------------------------------------------
@@ -220,8 +235,11 @@ def write_dir(case, d, cmdline=b"prog arg", with_cmdline=True, exename=None):
         v = strs.get(i)
         if v is None:
             return b""
-        b = struct.pack("<H", len(v)) + v
-        return b + b"\0" * (-len(b) % 4)
+        b = b""
+        for kd, x in v:                  # read_task_arg: every argument is padded to 4 bytes
+            b += (struct.pack("<H", len(x)) + x) if kd == "s" else bytes([x])
+            b += b"\0" * (-len(b) % 4)
+        return b
     for tid, pid, ppid in case["tasks"]:
         rr = [{"t": t, "type": datadir.ENTRY if ent else datadir.EXIT, "depth": 0, "addr": BASE + syms[k][0],
                "payload": payload(i)}
@@ -238,7 +256,9 @@ def write_dir(case, d, cmdline=b"prog arg", with_cmdline=True, exename=None):
     desc = {"syms": syms, "base": BASE, "tasks": tasks, "cmdline": cmdline,
             "exename": exename or ("/fake/" + case["exe"]), "args": bool(strs)}
     datadir.write(desc, d, with_cmdline=with_cmdline,
-                  argspec={"argspec": "strfn@arg1/s", "retspec": "strfn@retval/s"} if strs else None)
+                  argspec={"argspec": "strfn@" + ",".join("arg%d/%s" % (n + 1, kd) for n, kd in
+                                                          enumerate(case.get("argkinds") or "s")),
+                           "retspec": "strfn@retval/s"} if strs else None)
     return d
 
 
@@ -423,6 +443,12 @@ def copts(l):
     return "[" + "; ".join("None" if x is None else "Some %s" % cb(x) for x in l) + "]"
 
 
+def cargs(l):
+    """per record: None | Some [AStr bytes; AChr n; ...]"""
+    return "[" + "; ".join("None" if v is None else "Some [%s]" % "; ".join(
+        ("AStr %s" % cb(x)) if kd == "s" else ("AChr (n_ %d)" % x) for kd, x in v) for v in l) + "]"
+
+
 def crow(r):
     if r[3] is None:
         return "gr0 %d %s %d" % (r[0], cb(r[1]), r[2])
@@ -448,7 +474,7 @@ def ccase(c, p):
         "; ".join(crow(r) for r in p["graph"]),
         clines(p["flame0"]), clines(p["flameS"]), clines(p["dot"]), clines(p["mermaid"]),
         "; ".join(ccev(e) for e in p["chrome"]), "true" if p["json_ok"] else "false",
-        copts([(c.get("strs") or {}).get(i) for i in range(len(c["recs"]))]),
+        cargs([(c.get("strs") or {}).get(i) for i in range(len(c["recs"]))]),
         copts([e[6] for e in p["chrome"]]))
 
 
@@ -544,7 +570,8 @@ def evaluate_cases(ctx, cases, parsed, name="cases", flame_fixed=False):
 
 def case_json(c, p=None):
     j = {"tasks": c["tasks"], "syms": [s.hex() for s in c["syms"]], "recs": c["recs"], "sample": c["sample"],
-         "exe": c["exe"], "strs": {str(i): v.hex() for i, v in (c.get("strs") or {}).items()}}
+         "exe": c["exe"], "argkinds": c.get("argkinds") or "",
+         "strs": {str(i): [[kd, x.hex() if kd == "s" else x] for kd, x in v] for i, v in (c.get("strs") or {}).items()}}
     if p is not None:
         j["impl"] = {"graph": [[r[0], r[1].hex(), r[2], r[3]] for r in p["graph"]],
                      "flame0": [l.decode("latin-1") for l in p["flame0"]],
@@ -560,7 +587,9 @@ def case_json(c, p=None):
 def case_from_json(j):
     return {"tasks": [tuple(t) for t in j["tasks"]], "syms": [bytes.fromhex(s) for s in j["syms"]],
             "recs": [tuple(r) for r in j["recs"]], "sample": j["sample"], "exe": j["exe"],
-            "strs": {int(i): bytes.fromhex(v) for i, v in (j.get("strs") or {}).items()}}
+            "argkinds": j.get("argkinds") or "",
+            "strs": {int(i): [(kd, bytes.fromhex(x) if kd == "s" else x) for kd, x in v]
+                     for i, v in (j.get("strs") or {}).items()}}
 
 
 VERDATE = re.compile(rb'"version":"uftrace ([^\n]*)",\n"recorded_time":"([^\n"]*)"')
@@ -917,6 +946,21 @@ def witnesses(ctx, objdir, hexe):
     repro["chrome-no-event-comma"] = rc != 0 or not parse_chrome(out)[0]
     report_defect(ctx, "chrome-no-event-comma", repro["chrome-no-event-comma"],
                   {"kind": "witness", "option": "-r ~0.000000001"})
+    # 7. argument text longer than the buffers of replay (1 KiB) and dump (2 KiB): 8 strings of 90 bytes 0x01
+    heavy = {"tasks": [(100, 100, None)], "syms": [b"main", b"strfn"], "sample": 1, "exe": "prog", "argkinds": "s" * 8,
+             "recs": [(100, True, 0, 1000), (100, True, 1, 1100), (100, False, 1, 1200), (100, False, 0, 1300)],
+             "strs": {1: [("s", b"\x01" * 90 + b"\0")] * 8, 2: [("s", b"\\" * 1100 + b"\0")]}}
+    write_dir(heavy, d)
+    asan = build.get_build("asan", ctx.log)
+    bad = []
+    for cmd in (["dump", "--chrome"], ["replay"], ["dump"]):
+        rc, out, err = uft(asan, cmd + ["--no-pager", "-d", d])
+        if rc != 0 or b"AddressSanitizer" in err or (cmd[-1] == "--chrome" and not parse_chrome(out)[0]):
+            bad.append(" ".join(cmd))
+    ctx.case(key=("wit", "argtext"), tags=["witness:argument-text-overflow"])
+    repro["argspec-text-overflow"] = bool(bad)
+    report_defect(ctx, "argspec-text-overflow", bool(bad),
+                  {"kind": "witness", "asan": True, "failing_commands": bad, "case": case_json(heavy)})
     # sanity: the plain directory is valid JSON
     ok, out = chrome_ok()
     if not ok:
@@ -1109,15 +1153,24 @@ def tags_of(c):
         t.append("open-calls")
     if any(p[2] is not None for p in c["tasks"]):
         t.append("forked-task")
-    vals = list((c.get("strs") or {}).values())
-    if vals:
+    allargs = list((c.get("strs") or {}).values())
+    if allargs:
         t.append("string-args")
-        blob = b"".join(vals)
+        t.append("args:arity=%d" % len(c.get("argkinds") or "s"))
+        blob = b"".join(x if kd == "s" else bytes([x]) for v in allargs for kd, x in v)
         for b, lab in ((0x22, "arg:quote"), (0x5c, "arg:backslash"), (9, "arg:tab"), (10, "arg:newline"), (0xff, "arg:0xff")):
             if b in blob:
                 t.append(lab)
-        if b"\xff\xff\xff\xff" in vals:
+        if any(kd == "s" and x == b"\xff\xff\xff\xff" for v in allargs for kd, x in v):
             t.append("arg:NULL")
+        if any(kd == "c" for v in allargs for kd, x in v):
+            t.append("arg:char")
+
+        def esc_len(bs):
+            return sum(1 if (32 <= b < 127 and b not in (0x22, 0x5c)) else 2 if b in (0x22, 0x5c) else 3 if b in (9, 10) else 5
+                       for b in bs)
+        big = max(sum(4 + esc_len(x.split(b"\0")[0]) + 2 if kd == "s" else 7 for kd, x in v) for v in allargs)
+        t.append("args:text<=1KiB" if big <= 1000 else "args:text>1KiB" if big <= 2040 else "args:text>2KiB(truncated)")
     return t
 
 
@@ -1171,6 +1224,16 @@ def run(ctx):
          "recs": seq(100, [(E, 0), (E, 1), (E, 2)], 1000) + seq(101, [(E, 1), (E, 1), (E, 2), (X, 2)], 2000)
                  + seq(100, [(X, 2), (E, 1), (X, 1), (X, 1), (X, 0)], 3000) + seq(101, [(X, 1), (E, 2), (E, 1)], 4000)},
     ]
+    # the argument text ends exactly around the end of dump's 2 KiB buffer: (\"aaa...\") with 2039..2045 a's, and
+    # 5-byte escapes (0x01) that stop fitting one by one; two arguments so that ', ' and the `len <= 2` break are hit
+    for nn in (2039, 2040, 2041, 2042, 2043, 2045):
+        fixed.append({"tasks": [(100, 100, None)], "syms": [b"main", b"strfn"], "sample": 1, "exe": "prog", "argkinds": "sc",
+                      "recs": [(100, True, 0, 1000), (100, True, 1, 1100), (100, False, 1, 1200), (100, False, 0, 1300)],
+                      "strs": {1: [("s", b"a" * nn + b"\0"), ("c", 0x41)], 2: [("s", b"b" * (nn + 3) + b"\0")]}})
+    for nn in (406, 407, 408, 409):
+        fixed.append({"tasks": [(100, 100, None)], "syms": [b"main", b"strfn"], "sample": 1, "exe": "prog", "argkinds": "ss",
+                      "recs": [(100, True, 0, 1000), (100, True, 1, 1100), (100, False, 1, 1200), (100, False, 0, 1300)],
+                      "strs": {1: [("s", b"\x01" * nn + b"\0"), ("s", b"zz\0")], 2: [("s", b"\x01" * (nn + 1) + b"\0")]}})
     n = ctx.n(150, 1200)
     d = os.path.join(ctx.scratch, "dir")
     i = -1
@@ -1222,6 +1285,20 @@ def run(ctx):
         ctx.case(key=("dir", tuple(c["syms"]), tuple(c["recs"])), nontrivial=len(c["recs"]) >= 2,
                  tags=tags_of(c) + extra_tags, size=len(c["recs"]),
                  sample=case_json(c, p) if len(ctx.samples) < 2 and 4 <= len(c["recs"]) <= 10 else None)
+    # memory safety of the argument text: the directories with the longest argument texts through the ASan build
+    asan = build.get_build("asan", ctx.log)
+    heavy_cases = sorted((c for c in cases if c.get("strs")),
+                         key=lambda c: -max(sum(len(x) if kd == "s" else 1 for kd, x in v) for v in c["strs"].values()))
+    shorties = [c for c in cases if c.get("strs") and any(kd == "s" and len(x) <= 3 for v in c["strs"].values() for kd, x in v)]
+    for c in heavy_cases[:ctx.n(4, 40)] + shorties[:ctx.n(3, 20)]:
+        write_dir(c, d)
+        for cmd in (["replay"], ["dump"], ["dump", "--chrome"]):
+            rc, out, err = uft(asan, cmd + ["--no-pager", "-d", d])
+            if rc != 0 or b"AddressSanitizer" in err:
+                ctx.violation("uftrace %s fails under AddressSanitizer on a trace with long argument texts: %r"
+                              % (" ".join(cmd), err[-300:]), {"kind": "dir", "asan": " ".join(cmd), "case": case_json(c)}, True)
+                break
+        ctx.tag("asan:replay+dump+chrome-on-long-arguments")
     seen = set()
     for c in cases:
         seen.update(b"".join(c["syms"]))
